@@ -1104,6 +1104,38 @@ fn main() {
         }
         k += nshards;
     }
+    // Long streaks of one and the same kind of answer on one client (state that accumulates over
+    // millions of calls): the 1,300,000th answer is judged like the first.
+    let mut streak_calls = 0u64;
+    if mode == "sweep" && shard == 0 {
+        let base = Vector { as_of: (1000, 0), void_after: (2000, 0), bound: 5000, drift: 50_000, status: 1, real: (1_700_000_000, 0), mono: (1000, 500), kind: "streak" };
+        let kinds: Vec<Vector> = vec![
+            Vector { mono: (990, 0), ..base },                    // causality breach
+            Vector { drift: 2_000_000_000, ..base },              // malformed drift
+            base,                                                 // synchronised
+            Vector { mono: (1500, 0), ..base },                   // free running by age
+            Vector { mono: (2500, 0), ..base },                   // unknown by age
+            Vector { status: 0, ..base },                         // unknown as published
+        ];
+        for v in kinds.iter() {
+            let mut first_bad: Option<(u64, String)> = None;
+            for n in 0..1_300_000u64 {
+                let o = rig.eval(v);
+                streak_calls += 1;
+                if first_bad.is_none() {
+                    let bad = oracle(v, &o);
+                    if let Some((_, sig, text)) = bad.into_iter().find(|(p, sig, _)| p == &prop || (prop == "C05" && *p == "C14" && sig == "panic")) {
+                        first_bad = Some((n, format!("{}: {}", sig, text)));
+                    }
+                }
+            }
+            if let Some((n, text)) = first_bad {
+                if violations.len() < 20 {
+                    violations.push(json!({"sig": "answer-changes-after-a-long-streak", "detail": format!("the same record and clock readings asked {} times in a row on one client: answer #{} is wrong: {} [vector {}]", 1_300_000, n + 1, text, v.line()), "replay": ""}));
+                }
+            }
+        }
+    }
     let order_checks = rig.order_checks;
     for o in rig.order_violations.iter().take(3) {
         if violations.len() < 20 {
@@ -1115,7 +1147,7 @@ fn main() {
     let out = json!({
         "hostile": {"errno_values": vworld::meter::ERRNOS.len(), "signals": hostile_signals, "signals_delivered": vworld::meter::SIGNALS_DELIVERED.load(std::sync::atomic::Ordering::Relaxed), "stderr_unwritable": hostile_stderr},
         "evaluations": evaluations, "distinct": distinct.len(), "distinct_capped": distinct.len() >= DISTINCT_CAP, "cells": cells, "outcomes": outcomes, "chain_checks": chain_checks,
-        "violations": violations, "samples": samples, "virtual_clock_reads": clock::virtual_reads(), "blur_ns": blur, "clock_order_checks": order_checks,
+        "violations": violations, "samples": samples, "virtual_clock_reads": clock::virtual_reads(), "blur_ns": blur, "clock_order_checks": order_checks, "streak_calls": streak_calls,
         "wall_s": (clock::real_clock_ns(libc::CLOCK_MONOTONIC) - t0) as f64 / 1e9,
     });
     let outp = arg_str(&args, "out", "");
